@@ -91,15 +91,15 @@ Proof.
   intros s1 _. unfold IVr. cbn [res_state]. cbv zeta.
   set (s2 := do_close s1 (rw_rfd s1 j)).
   assert (A2 : IV s1 s2) by apply do_close_IV.
-  set (s3 := if efd_raw s2 =? 0 then do_close s2 (rw_wfd s2 j) else s2).
-  assert (A3 : IV s2 s3) by (unfold s3; destruct (efd_raw s2 =? 0); [apply do_close_IV|reflexivity]).
+  set (s3 := if raw_is_pipe s2 j then do_close s2 (rw_wfd s2 j) else s2).
+  assert (A3 : IV s2 s3) by (unfold s3; destruct (raw_is_pipe s2 j); [apply do_close_IV|reflexivity]).
   unfold IV in *. cbn [invoc set_rw]. congruence.
 Qed.
 
 Lemma raw_post_IV : forall s j, IV s (raw_post s j).
 Proof.
   intros s j. unfold raw_post.
-  destruct (efd_raw s =? 0); [destruct (k_write (kern s) (rw_wfd s j) 1 0)|destruct (k_write (kern s) (rw_wfd s j) 8 1)]; reflexivity.
+  destruct (raw_is_pipe s j); [destruct (k_write (kern s) (rw_wfd s j) 1 0)|destruct (k_write (kern s) (rw_wfd s j) 8 1)]; reflexivity.
 Qed.
 
 Lemma ctl_retry_IV : forall s op fd ev d s1 r, ctl_retry s op fd ev d = (s1, r) -> IV s s1.
@@ -228,7 +228,7 @@ Proof.
   - exact KN.
   - intros j RJ. destruct (dy_obj _ DI j RJ) as (FN & _). pose proof (dy_kern _ DI j RJ) as DK.
     unfold RAW_KEY. rewrite FN.
-    destruct (efd_raw s =? 0).
+    destruct (raw_is_pipe s j).
     + destruct DK as (R1 & W1 & _). auto.
     + destruct DK as (R1 & W1 & _). rewrite W1. auto.
   - intros AR. destruct (fv_ref _ _ FI) as [Z0|O1]; [contradiction|].
